@@ -1,0 +1,63 @@
+//go:build verif
+
+package driver
+
+// Contracts for the deductive verifier in /verif (govc). Comments only; compiled only with the build tag "verif".
+
+// ---- result rows (C12)
+
+//@ pred RowsInv(r *rows) := r != nil && len(r.cols) >= 1 && 0 <= r.idx
+//@   && (forall i idx(r.rows) :: len(r.rows[i].fields) == len(r.cols) - 1)
+
+//@ func [C12] newRows(result, groupBy) (r)
+//@   requires result != nil
+//@   requires forall j idx(result.Groups) :: len(result.Groups[j].Fields) == len(groupBy)
+//@   modifies groupBy[*]
+//@   ensures [C12] r != nil && fresh(r) && r.idx == 0 && !r.closed
+//@   ensures [C12] columns: len(r.cols) == len(groupBy) + 1 && r.cols[len(groupBy)] == "count" && (forall j idx(groupBy) :: r.cols[j] == old(groupBy[j]))
+//@   ensures [C12] one_row_per_group: len(groupBy) > 0 ==> len(r.rows) == len(result.Groups)
+//@        && (forall i idx(r.rows) :: r.rows[i].count == result.Groups[i].Count && len(r.rows[i].fields) == len(result.Groups[i].Fields)
+//@            && (forall k idx(r.rows[i].fields) :: r.rows[i].fields[k] == result.Groups[i].Fields[k].Value))
+//@   ensures [C12] total_row: len(groupBy) == 0 ==> len(r.rows) == 1 && r.rows[0].count == result.Count && len(r.rows[0].fields) == 0
+//@   ensures [C12] RowsInv(r)
+//@   loop 1
+//@     invariant r != nil && !(r in old($alloc)) && r.idx == 0 && !r.closed && len(r.rows) == $i && 0 <= $i && $i <= len(result.Groups)
+//@     invariant len(r.cols) == len(groupBy) + 1 && r.cols[len(groupBy)] == "count" && (forall j idx(groupBy) :: r.cols[j] == old(groupBy[j]))
+//@     invariant arr(r.rows) == nil || (!(arr(r.rows) in old($alloc)) && allocated(arr(r.rows)))
+//@     invariant RowsDone(r, result)
+//@   loop 2
+//@     invariant len(fields) == $i && 0 <= $i && $i <= len(rr.Fields)
+//@     invariant arr(fields) != nil && !(arr(fields) in old($alloc)) && allocated(arr(fields))
+//@     invariant forall k idx(fields) :: fields[k] == rr.Fields[k].Value
+//@     invariant len(r.cols) == len(groupBy) + 1 && r.cols[len(groupBy)] == "count" && (forall j idx(groupBy) :: r.cols[j] == old(groupBy[j]))
+//@     invariant RowsDone(r, result)
+//@     invariant forall i idx(r.rows) :: arr(r.rows[i].fields) != arr(fields)
+//@     invariant arr(r.cols) != arr(fields) && arr(groupBy) != arr(fields)
+
+//@ pred RowsDone(r *rows, result *updog.Result) :=
+//@   (forall i idx(r.rows) :: r.rows[i].count == result.Groups[i].Count && len(r.rows[i].fields) == len(result.Groups[i].Fields)
+//@        && !(arr(r.rows[i].fields) in old($alloc)) && allocated(arr(r.rows[i].fields))
+//@        && (forall k idx(r.rows[i].fields) :: r.rows[i].fields[k] == result.Groups[i].Fields[k].Value))
+
+//@ func [C12] (*rows).Columns(r) (result)
+//@   requires r != nil
+//@   ensures [C12] result == r.cols
+
+//@ func [C12] (*rows).ColumnTypeDatabaseTypeName(r, index) (result)
+//@   requires r != nil
+//@   ensures [C12] index < len(r.cols) - 1 ==> result == "TEXT"
+//@   ensures [C12] index >= len(r.cols) - 1 ==> result == "BIGINT"
+
+// Next: database/sql passes a destination slice with one element per column.
+//@ func [C12] (*rows).Next(r, values) (err)
+//@   requires RowsInv(r) && len(values) == len(r.cols)
+//@   modifies r.idx; values[*]
+//@   ensures [C12] eof: old(r.idx) >= len(r.rows) ==> err != nil && r.idx == old(r.idx)
+//@   ensures [C12] row: old(r.idx) < len(r.rows) ==> err == nil && r.idx == old(r.idx) + 1
+//@        && (forall k idx(values) :: k < len(r.cols) - 1 ==> typeof(values[k]) == tag(string) && values[k].(string) == r.rows[old(r.idx)].fields[k])
+//@        && typeof(values[len(r.cols) - 1]) == tag(int64)
+//@        && (r.rows[old(r.idx)].count <= 9223372036854775807 ==> values[len(r.cols) - 1].(int64) == r.rows[old(r.idx)].count)
+//@   ensures [C12] RowsInv(r)
+//@   loop 1
+//@     invariant RowsInv(r) && r.idx == old(r.idx) && r.idx < len(r.rows) && 0 <= $i
+//@     invariant forall k idx(values) :: k < $i ==> typeof(values[k]) == tag(string) && allocated(iref(values[k])) && values[k].(string) == r.rows[r.idx].fields[k]
